@@ -148,7 +148,7 @@ impl ArrayImpl {
     arith!(sub, -);
     arith!(mul, *);
     arith!(unchecked_div, /);
-    arith!(rem, %);
+    arith!(unchecked_rem, %);
     cmp!(eq, ==);
     cmp!(ne, !=);
     cmp!(gt,  >);
@@ -165,6 +165,18 @@ impl ArrayImpl {
         ))?;
 
         self.unchecked_div(&other)
+    }
+
+    /// `x % 0` is NULL, like `x / 0` (instead of panicking on the zero divisor).
+    pub fn rem(&self, other: &Self) -> Result {
+        let valid_rhs = other.get_valid_bitmap();
+        let other = safen_dividend(other, valid_rhs).ok_or(ConvertError::NoBinaryOp(
+            "rem".into(),
+            self.type_string(),
+            other.type_string(),
+        ))?;
+
+        self.unchecked_rem(&other)
     }
 
     pub fn and(&self, other: &Self) -> Result {
